@@ -15,9 +15,9 @@ import (
 )
 
 type Obligation struct {
-	Rule   string `json:"rule"`   // e.g. C01.gate
-	Key    string `json:"key"`    // rule/function/construct descriptor (never a line number)
-	Pos    string `json:"pos"`    // file:line, human readable only
+	Rule   string `json:"rule"` // e.g. C01.gate
+	Key    string `json:"key"`  // rule/function/construct descriptor (never a line number)
+	Pos    string `json:"pos"`  // file:line, human readable only
 	OK     bool   `json:"ok"`
 	Detail string `json:"detail"` // facts required / found, path, …
 	Config string `json:"config,omitempty"`
